@@ -655,12 +655,27 @@ func (fr *Frame) invariantsFor(l *Loop) []*Clause {
 		return nil
 	}
 	var out []*Clause
+	inlined := fr.fn != fr.vc.top
 	for _, cl := range fr.contract.Clauses {
 		if cl.Kind == "invariant" && cl.Loop == l.Ord {
+			if inlined && len(cl.Props) > 0 && !hasString(cl.Props, "C09") {
+				// a functional invariant (labelled with the properties it serves) belongs to the function's own proof; where the
+				// body is inlined into a caller only the unlabelled / safety invariants summarise the loop
+				continue
+			}
 			out = append(out, cl)
 		}
 	}
 	return out
+}
+
+func hasString(xs []string, x string) bool {
+	for _, y := range xs {
+		if y == x {
+			return true
+		}
+	}
+	return false
 }
 
 // havocLoopTargets: everything the loop body may assign gets an arbitrary value
@@ -750,7 +765,9 @@ func (fr *Frame) havocLoopTargets(l *Loop, st *State) {
 	if freshOnly && !all {
 		for k, h := range st.Heap {
 			if !heapKeys[k] {
-				st.Heap[k] = HavocAbove(h, vc.allocN, VarB(freshName(k+"@loopfresh"), h.S, vc.allocN+1000000))
+				// what earlier iterations stored into their own fresh objects: objects that existed before the loop, or objects of
+				// the family reserved below for the allocations of earlier iterations - nothing allocated later
+				st.Heap[k] = HavocAbove(h, vc.allocN, VarB(freshName(k+"@loopfresh"), h.S, vc.allocN+1))
 			}
 		}
 		// allocation ids used by earlier iterations are unknown: reserve a family for them
@@ -758,6 +775,9 @@ func (fr *Frame) havocLoopTargets(l *Loop, st *State) {
 	}
 	if ghosts && !all {
 		for g := range st.Ghost {
+			if strings.HasPrefix(g, "$mtok:") {
+				continue // the order token of a map range is fixed when the range starts
+			}
 			st.Ghost[g] = Var(freshName("g."+g+"@loop"), st.Ghost[g].S)
 		}
 		for _, g := range []string{"tn", "trfn", "trres", "ncalls"} {
@@ -775,6 +795,30 @@ func (fr *Frame) havocLoopTargets(l *Loop, st *State) {
 			heapKeys[k] = true
 		}
 		vc.warn("loop %d of %s havocs the whole heap (call or map update inside)", l.Ord, vc.prog.shortName(fr.fn))
+	}
+	// map ranges advanced inside the loop: the position counter is arbitrary but stays inside [-1, iterlen) at the head
+	// (holds on entry: -1 and iterlen >= 0; kept by the loop's own guard, the body is entered only when the next index is below iterlen)
+	for b := range l.Blocks {
+		for _, ins := range b.Instrs {
+			nx, ok := ins.(*ssa.Next)
+			if !ok {
+				continue
+			}
+			r := nx.Iter.(*ssa.Range)
+			id := rangeID(r)
+			tok, have := st.Ghost["$mtok:"+id]
+			if !have {
+				continue
+			}
+			if all {
+				delete(st.Ghost, "$mtok:"+id) // the map itself may change: fall back to "some present key"
+				delete(st.Ghost, "$mi:"+id)
+				continue
+			}
+			mi := Var(freshName("g.$mi@loop"), SInt)
+			st.Ghost["$mi:"+id] = mi
+			vc.addFact(st, And(Le(IntLit(-1), mi), Lt(mi, App("iterlen", SInt, tok))))
+		}
 	}
 	if len(heapKeys) > 0 {
 		// stores inside the loop may have changed message objects any number of times
